@@ -169,6 +169,9 @@ type c06E2E struct {
 	logbuf *c06SyncBuf
 	seq    int
 
+	flags     *pb.RegistrationFlags // flags of the messages being built (zz_verif_c06_flags_test.go)
+	flagsName string
+
 	parseFails  int
 	histSamples int
 	refSamples  int
@@ -290,7 +293,7 @@ func (e *c06E2E) judgeStored(label string, detail map[string]interface{}, pol *c
 func (e *c06E2E) run(kind, mode string, src pb.RegistrationSource, dual bool, rngBytes []byte) {
 	e.seq++
 	pol, rm := e.pols[mode], e.rms[mode]
-	label := fmt.Sprintf("%s policy=%s source=%s dual=%v", kind, mode, src, dual)
+	label := fmt.Sprintf("%s policy=%s source=%s dual=%v flags=%s", kind, mode, src, dual, e.flagsName)
 	e.rec.Case(label)
 	e.logbuf.Take()
 
@@ -396,6 +399,7 @@ func (e *c06E2E) run(kind, mode string, src pb.RegistrationSource, dual bool, rn
 			V6Support:           &v6,
 			DecoyListGeneration: &gen,
 			ClientLibVersion:    &libv,
+			Flags:               e.msgFlags(),
 		},
 		RegistrationSource:  &src,
 		RegistrationAddress: net.ParseIP("203.0.113.77").To16(),
@@ -545,7 +549,8 @@ func (e *c06E2E) run(kind, mode string, src pb.RegistrationSource, dual bool, rn
 	}
 	if evaluated {
 		e.rec.Count("evaluations", 1)
-		e.rec.Distinct("nontrivial", kind, mode, src.String(), dual)
+		e.rec.Distinct("nontrivial", kind, mode, src.String(), dual, e.flagsName)
+		e.rec.Count("flags["+e.flagsName+"].cases", 1)
 		e.rec.Distinct("kinds", kind)
 	}
 }
@@ -577,6 +582,9 @@ func TestVerifC06EndToEnd(t *testing.T) {
 		e.rms[m] = e.newRM(p)
 	}
 	modes := []string{"blocklist", "allowlist", "loopback-net"}
+	// flags of the registration messages: rotated by case number in the exhaustive parts, drawn from a stream
+	// of their own in the random parts (zz_verif_c06_flags_test.go)
+	frng := kit.Rand("c06/e2e/flags")
 	sources := []pb.RegistrationSource{pb.RegistrationSource_API, pb.RegistrationSource_Detector, pb.RegistrationSource_BidirectionalAPI, pb.RegistrationSource_DNS, pb.RegistrationSource_DetectorPrescan}
 
 	// history class: one registration delivered several times with different coverts, tracking records
@@ -594,12 +602,14 @@ func TestVerifC06EndToEnd(t *testing.T) {
 		for _, kind := range c06HistoryKinds {
 			for _, age := range c06HistoryAges {
 				for _, mode := range hmodes {
+					e.setFlags(hn)
 					one(kind, age, mode, sources[hn%len(sources)], hn%5 == 4)
 				}
 			}
 		}
 		rec.Exhaustive(fmt.Sprintf("history class: every kind (%d) × every back-dating (%v min) × policy modes %v", len(c06HistoryKinds), c06HistoryAges, hmodes))
 		for i := kit.Tier(0, 3000); i > 0; i-- {
+			e.setFlagsRand(frng)
 			one(c06HistoryKinds[hrng.Intn(len(c06HistoryKinds))], c06HistoryAges[hrng.Intn(len(c06HistoryAges))], hmodes[hrng.Intn(len(hmodes))],
 				sources[hrng.Intn(len(sources))], hrng.Intn(4) == 0)
 		}
@@ -620,12 +630,14 @@ func TestVerifC06EndToEnd(t *testing.T) {
 		for rep := 0; rep < 3; rep++ {
 			for _, kind := range c06RefusedKinds {
 				for _, mode := range rmodes {
+					e.setFlags(rn)
 					one(kind, mode, sources[rn%len(sources)], rn%5 == 4)
 				}
 			}
 		}
 		rec.Exhaustive(fmt.Sprintf("refused class: every kind (%d) × policy modes %v, 3 times", len(c06RefusedKinds), rmodes))
 		for i := kit.Tier(0, 3000); i > 0; i-- {
+			e.setFlagsRand(frng)
 			one(c06RefusedKinds[rrng.Intn(len(c06RefusedKinds))], rmodes[rrng.Intn(len(rmodes))], sources[rrng.Intn(len(sources))], rrng.Intn(4) == 0)
 		}
 	}
@@ -651,6 +663,7 @@ func TestVerifC06EndToEnd(t *testing.T) {
 			for _, variant := range c06ConnVariants {
 				for _, mode := range modes {
 					for _, tp := range tps {
+						e.setFlags(cn)
 						one(class, variant, mode, tp, sources[cn%len(sources)], cn%5 == 4)
 					}
 				}
@@ -658,6 +671,7 @@ func TestVerifC06EndToEnd(t *testing.T) {
 		}
 		rec.Exhaustive(fmt.Sprintf("connecting class: every covert class (%d) × ordering variant (%d) × policy mode (%d) × transport (mock, real DTLS)", len(c06ConnCoverts), len(c06ConnVariants), len(modes)))
 		for i := kit.Tier(0, 4000); i > 0; i-- {
+			e.setFlagsRand(frng)
 			one(c06ConnCoverts[crng.Intn(len(c06ConnCoverts))], c06ConnVariants[crng.Intn(len(c06ConnVariants))], modes[crng.Intn(len(modes))], tps[crng.Intn(2)],
 				sources[crng.Intn(len(sources))], crng.Intn(4) == 0)
 		}
@@ -677,19 +691,22 @@ func TestVerifC06EndToEnd(t *testing.T) {
 		var kind, mode string
 		var src pb.RegistrationSource
 		var dual bool
-		if i < len(c06E2EKinds)*len(modes) {
-			// every scenario kind under every policy mode at least once
-			kind, mode = c06E2EKinds[i%len(c06E2EKinds)], modes[i/len(c06E2EKinds)]
+		if km := len(c06E2EKinds) * len(modes); i < km*len(c06FlagVariants) {
+			// every scenario kind under every policy mode with every flags variant at least once
+			j := i % km
+			kind, mode = c06E2EKinds[j%len(c06E2EKinds)], modes[j/len(c06E2EKinds)]
 			src, dual = sources[i%len(sources)], i%4 == 3
+			e.setFlags(i / km)
 		} else {
 			kind, mode = c06E2EKinds[rng.Intn(len(c06E2EKinds))], modes[rng.Intn(len(modes))]
 			src, dual = sources[rng.Intn(len(sources))], rng.Intn(4) == 0
+			e.setFlagsRand(frng)
 		}
 		b := make([]byte, 32)
 		rng.Read(b)
 		e.run(kind, mode, src, dual, b)
 	}
-	rec.Exhaustive(fmt.Sprintf("every scenario kind (%d) × every policy mode (%d) at least once", len(c06E2EKinds), len(modes)))
+	rec.Exhaustive(fmt.Sprintf("every scenario kind (%d) × every policy mode (%d) × every flags variant (%d) at least once", len(c06E2EKinds), len(modes), len(c06FlagVariants)))
 	rec.Count("detector_publications", fr.Len())
 	rec.Note("covert 0.0.0.0:port (a literal outside the configured subnets) is admitted and the kernel delivers the connection to a listener on 127.0.0.1 although 127.0.0.0/30 resp. 127.0.0.0/8 is blocklisted: counted as unspecified_address_reached_local_listener, not judged (the statement speaks of the configured subnets; operators must list 0.0.0.0/8 and ::/128)")
 	if left := kit.WaitNoGoroutineIn(20*time.Second, "station/lib.halfPipe", "station/lib.Proxy"); left != nil {
